@@ -345,3 +345,49 @@ func constantIntOfObj(o types.Object) (int64, bool) {
 	}
 	return constantInt(c)
 }
+
+var callSiteMemo = map[*Program]map[*ssa.Function][]ssa.CallInstruction{}
+
+// callSitesOf: every call instruction of the module that may invoke fn — static calls, and calls through a function
+// value chosen among known functions (`f := A; if c { f = B }; f(x)`, a table of functions), bound methods and method
+// expressions unwrapped.
+func callSitesOf(p *Program, fn *ssa.Function) []ssa.CallInstruction {
+	m, ok := callSiteMemo[p]
+	if !ok {
+		m = map[*ssa.Function][]ssa.CallInstruction{}
+		for _, f := range p.Funcs() {
+			if !p.inModule(f) {
+				continue
+			}
+			allInstrs(f, func(in ssa.Instruction) {
+				ci, ok := in.(ssa.CallInstruction)
+				if !ok {
+					return
+				}
+				cc := ci.Common()
+				if cc.IsInvoke() {
+					return
+				}
+				if g := cc.StaticCallee(); g != nil {
+					g = unwrapThunk(g)
+					m[g] = append(m[g], ci)
+					return
+				}
+				if _, isB := cc.Value.(*ssa.Builtin); isB {
+					return
+				}
+				if fs, ok := funcChoice(cc.Value, 0); ok {
+					seen := map[*ssa.Function]bool{}
+					for _, g := range fs {
+						if !seen[g] {
+							seen[g] = true
+							m[g] = append(m[g], ci)
+						}
+					}
+				}
+			})
+		}
+		callSiteMemo[p] = m
+	}
+	return m[fn]
+}
